@@ -270,13 +270,16 @@ PROPS["C17"] = {
 
 PROPS["C09"] = {
     "level": "proof",
-    "verus": [],
+    "verus": [{"unit": "strings", "rlimit": 200}],
     "kani": K_UNICODE + K_STRTAB + K_BLOCK,
-    "trusted_base": [T3, T4, KANI, "whole-string decoders (parse_string_inplace, parse_string_escaped) are not yet under contract"],
-    "level_text": "Kani/CBMC complete proofs of the string-decoding kernels: hex quad, UTF-8 encoder, \\u / surrogate-pair handler, escape table, 32-lane block classification",
-    "level_note": "kernels only; independence from length/offset rests on the per-block proofs",
-    "technique": TECH_K,
-    "explanation": "decoding kernels equal their RFC reference definitions on their full input domains",
+    "trusted_base": [T1, T2, T3, T4, T6, T8, VSTD, KANI, PERR,
+                     "parse_string_escaped / parse_escaped_char (raw writes into Vec spare capacity) and parse_string_inplace (in-place compaction over the padded buffer) are NOT under contract: their acceptance contract is assumed where callers need it",
+                     "StringBlock / hex_to_u32_nocheck contracts used by the Verus unit are the ones Kani proves on the real code",
+                     "lossy UTF-8 repair is String::from_utf8_lossy (T4); check_invalid_utf8 bookkeeping not covered"],
+    "level_text": "Verus proof, for every input, that parse_string_raw accepts only grammar-valid literals, never rejects an escape-free well-formed literal, returns Borrowed exactly when the literal contains no backslash and then exactly the bytes between the quotes; that parse_escaped_utf8 equals the RFC 8259 reference (BMP scalar, surrogate pair -> supplementary, unpaired surrogate -> reject or U+FFFD consuming nothing else in lossy mode); Kani/CBMC complete proofs of the decoding kernels (hex quad, UTF-8 encoder, in-place \\u handler, escape table, 32-lane block classification)",
+    "level_note": "the copying/in-place decoders' pointer loops are outside; independence from length/offset rests on the per-block proofs",
+    "technique": TECH_VK,
+    "explanation": "parse_string_raw / parse_escaped_utf8 contracts + decoding kernels equal to RFC reference definitions on their full domains",
 }
 
 PROPS["C10"] = {
